@@ -1032,7 +1032,7 @@ pub const MAX: IDate = IDate { year: 9999, month: 12, day: 31 };
             
             
             
-            if day < 1 {
+            if day < 0 {
                 return Err(verif_err());
             }
             IDate::try_new(self.year, self.month, day)
